@@ -1,4 +1,7 @@
 import ZV.Proofs.C01
+import ZV.Proofs.C01Asn1
+import ZV.Proofs.C01Alloc
+import ZV.Proofs.C01Bridge
 /-!
   C01 — parsers of untrusted bytes never panic, hang or over-allocate: the theorems.
 
@@ -9,11 +12,19 @@ import ZV.Proofs.C01
   total Lean function, so *termination is part of the definition being accepted* and "no panic" is
   what is proved below, for every input and both parsing modes.
 
-  -- FULL (not proved here): `∀ perm schema bs, unmarshal perm schema bs ≠ .panic` for the whole
-  -- reflective `parseField` engine and every instance (certificate, CSR, CRL, OCSP, keys), and the
-  -- same for the TLS / CT grammars. Proved: the header/length readers every one of those parsers is
-  -- built on, the element loop, the cryptobyte reader, the revocation-set parsers, and the post-parse
-  -- steps with primitive preconditions. The rest is explored by T3 only (see tools/props/C01.json).
+  The reflective `parseField` engine of `encoding/asn1` (on which every x509 / OCSP parser is built) is
+  covered through the deep-embedded model `ZV.Model.C18` (tied to the Go code by the C18 and C20
+  correspondence streams): see the last section. `ZV.Model.C18` works on suffixes (`bytes[offset:]`) and
+  takes lists apart by pattern matching, so an out-of-range index cannot be WRITTEN in it: its `Res.panic`
+  arms only propagate. What carries the content there is therefore (a) the bridge theorems — the suffix-style
+  header reader and counting loop of `ZV.Model.C18` ARE the index-explicit ones of `ZV.Model.C01` —, (b) the
+  in-bounds theorems — every `take` / `drop` of the engine is guarded, the content slice has exactly the
+  announced length —, (c) consumption / progress, (d) the fuel of the two fuelled loops is never what stops
+  them, and (e) the linear allocation bound.
+
+  -- FULL (not proved here): the same for the parts of `encoding/asn1` outside `ZV.Model.C18`
+  -- (`time.Time`, `interface{}`, `RawContent`, int8/int16), for the TLS / CT grammars and the other
+  -- cryptobyte readers. Those are explored by T3 only (see tools/props/C01.json).
 -/
 namespace ZV.C01
 
@@ -174,5 +185,199 @@ theorem rsa_encrypt_no_panic (p : RsaPub) (msgLen : Nat) : encryptPKCS1v15 p msg
     coprime to the modulus; or a nil modulus -/
 example : verifyUnguarded { n := some 35, e := some (-1) } 1 0 = .panic := by decide
 example : verifyUnguarded { n := none, e := some 3 } 0 0 = .panic := by decide
+
+/-! ### the reflective `parseField` engine of encoding/asn1 (`ZV.Model.C18`)
+
+  `C18.unmarshal perm schema params bytes` is `asn1.UnmarshalWithParams` for the Go type `schema` (a deep
+  embedding of `reflect.Type`: the theorems quantify over EVERY type built from int / int32 / Enumerated /
+  *big.Int / bool / Flag / ObjectIdentifier / BitString / []byte / string / RawValue / struct / []T, every
+  field-parameter set, every byte string, both parsing modes).
+
+  Termination is by construction: `parseField` / `parseFields` are structural recursions on the schema (the
+  recursion depth of the Go code is the nesting depth of the Go type, not of the input), `parseElems` on the
+  element count, every primitive on its input list; the two fuelled loops (`countElems`, `parseArcs`) are
+  shown below never to run out of fuel. Lean accepted these definitions without `partial`. -/
+
+/-- **no panic**: `Unmarshal` into any modelled Go type, any parameters, any bytes, both modes -/
+theorem asn1_unmarshal_no_panic (perm : Bool) (s : C18.Schema) (p : C18.Params) (bs : Bytes) :
+    C18.unmarshal perm s p bs ≠ .panic :=
+  (C01Asn1.engine_np perm s).1 p bs
+
+/-- … and the field loop of the struct arm -/
+theorem asn1_fields_no_panic (perm : Bool) (fs : C18.Schema) (bs : Bytes) : C18.parseFields perm fs bs ≠ .panic :=
+  (C01Asn1.engine_np perm fs).2 bs
+
+/-- … and every arm of the type switch on its own (content parsers: OID, BIT STRING, INTEGER ×3, BOOLEAN, strings) -/
+theorem asn1_primitives_no_panic (perm : Bool) (s : C18.Schema) (utag : Nat) (t : C18.TL) (inner full : Bytes) :
+    C18.parsePrim perm s utag t inner full ≠ .panic :=
+  C01Asn1.parsePrim_np perm s utag t inner full
+
+/-- **never reads past the input**: what `Unmarshal` returns as `rest` is a suffix of what it was given -/
+theorem asn1_unmarshal_consumed (perm : Bool) (s : C18.Schema) (p : C18.Params) (bs : Bytes) (v : C18.Val) (rest : Bytes)
+    (h : C18.unmarshal perm s p bs = .ok (v, rest)) : rest <:+ bs :=
+  ((C01Asn1.engine_consumed perm s).1 p bs v rest h).suffix
+
+/-- progress: either nothing was consumed (an absent OPTIONAL element took its default) or a whole element of at
+    least two bytes was -/
+theorem asn1_unmarshal_progress (perm : Bool) (s : C18.Schema) (p : C18.Params) (bs : Bytes) (v : C18.Val) (rest : Bytes)
+    (h : C18.unmarshal perm s p bs = .ok (v, rest)) : rest = bs ∨ rest.length + 2 ≤ bs.length := by
+  rcases (C01Asn1.engine_consumed perm s).1 p bs v rest h with h | h
+  · exact Or.inl h
+  · exact Or.inr h.2
+
+/-- the model threads the remaining suffix instead of an offset (`offset = len(bytes) - len(rest)`); the offset
+    is monotone along the field loop: after each field the remainder is a suffix of the previous one -/
+theorem asn1_fields_offsets_monotone (perm : Bool) (p : C18.Params) (s rest : C18.Schema) (bs : Bytes) (vs : C18.Val) (r' : Bytes)
+    (h : C18.parseFields perm (.fcons p s rest) bs = .ok (vs, r')) :
+    ∃ v r ws, C18.parseField perm s p bs = .ok (v, r) ∧ C18.parseFields perm rest r = .ok (ws, r') ∧
+      vs = .vcons v ws ∧ r' <:+ r ∧ r <:+ bs := by
+  simp only [C18.parseFields] at h
+  split at h
+  · rename_i v r h1
+    split at h
+    · rename_i ws r2 h2
+      simp only [Res.ok.injEq, Prod.mk.injEq] at h
+      refine ⟨v, r, ws, h1, ?_, h.1.symm, ?_, ((C01Asn1.engine_consumed perm s).1 p bs v r h1).suffix⟩
+      · rw [← h.2]; exact h2
+      · rw [← h.2]; exact (C01Asn1.engine_consumed perm rest).2 r ws r2 h2
+    · cases h
+    · cases h
+  · cases h
+  · cases h
+
+example : C18.parseFields false (.fcons {} .bool (.fcons {} .octets .fnil)) [0x01, 0x01, 0xff, 0x04, 0x00, 0x09] =
+    .ok (.vcons (.bool true) (.vcons (.bytes []) .vnil), [0x09]) := by decide
+
+/-- **every slice of the engine is in range**: when the stages in front of the type switch accept an element, the
+    input is `header ++ content ++ rest` with at least two header bytes, the content slice
+    `bytes[offset : offset+t.length]` has exactly the announced length (the model's `take` did not truncate), and
+    that length is below 2^31 (`offset + length` cannot overflow) -/
+theorem asn1_element_in_bounds (perm : Bool) (s : C18.Schema) (p : C18.Params) (bs : Bytes) (t : C18.TL) (utag : Nat)
+    (inner rest : Bytes) (h : C18.parsePre perm s p bs = .go t utag inner rest) :
+    (inner ++ rest) <:+ bs ∧ (inner ++ rest).length + 2 ≤ bs.length ∧ inner.length = t.len ∧ t.len < 2147483648 := by
+  obtain ⟨h1, h2, _, h4⟩ := C01Asn1.parsePre_go perm s p bs t utag inner rest h
+  exact ⟨h1.1, h1.2, h2, h4⟩
+
+/-- the header reader of the engine: no panic, ≥ 2 bytes consumed, class < 4, tag and length below 2^31 -/
+theorem asn1_header_consumed (perm : Bool) (bs : Bytes) (t : C18.TL) (r : Bytes) (h : C18.parseTL perm bs = .ok (t, r)) :
+    r <:+ bs ∧ r.length + 2 ≤ bs.length ∧ t.cls < 4 ∧ t.tag ≤ 2147483647 ∧ t.len < 2147483648 := by
+  obtain ⟨h1, h2⟩ := C01Asn1.parseTL_adv perm bs t r h
+  exact ⟨h1.1, h1.2, h2⟩
+
+example : C18.parseTL false [0x30, 0x82, 0x01, 0x00, 0x07] = .ok (⟨0, 16, 256, true⟩, [0x07]) := by decide
+
+/-- **bridge**: the suffix-style header reader of the engine model IS the index-explicit reader of `ZV.Model.C01`
+    (where every `bytes[i]` is a panic-on-out-of-range `idx`), at every offset: `rest = bytes[offset':]`.
+    The two models are tied to the Go code by different T2 streams (`c01 tl` and C18/C20). -/
+theorem asn1_header_same_function (perm : Bool) (bs : Bytes) (off : Nat) :
+    C18.parseTL perm (bs.drop off) = C01Asn1.liftTL bs (parseTagAndLength perm bs off) :=
+  C01Asn1.header_bridge perm bs off
+
+/-- **bridge**: the same for the counting loop of `parseSequenceOf` (element type matching any tag): the loop of
+    `ZV.Model.C01`, whose "header did not advance" arm is an explicit `panic`, is the fuelled loop of the engine
+    model whenever the fuel is at least the number of remaining bytes (the engine passes `len(bytes)`) -/
+theorem asn1_seqof_same_function (perm : Bool) (et : Nat) (ec : Bool) (bs : Bytes) (hbs : bs.length < 9223372036854775808)
+    (off n fuel : Nat) (hf : bs.length - off ≤ fuel) :
+    countElems perm bs off n = C01Asn1.addN n (C18.countElems perm true et ec fuel (bs.drop off)) :=
+  C01Asn1.seqof_bridge perm et ec bs hbs off n fuel hf
+
+example : ([0x05, 0x00] : Bytes).length < 9223372036854775808 ∧ ([0x05, 0x00] : Bytes).length - 0 ≤ 2 := by decide
+
+/-- the element count handed to `reflect.MakeSlice` is at most half the content bytes — for EVERY element type -/
+theorem asn1_seqof_count_linear (perm ma : Bool) (et : Nat) (ec : Bool) (fuel : Nat) (bs : Bytes) (n : Nat)
+    (h : C18.countElems perm ma et ec fuel bs = .ok n) : 2 * n ≤ bs.length :=
+  C01Asn1.countElems_bound perm ma et ec fuel bs n h
+
+example : C18.countElems false true 0 false 4 [0x05, 0x00, 0x01, 0x00] = .ok 2 := by decide
+
+/-- the fuel of the counting loop is never what stops it: any fuel ≥ the input length gives the same answer
+    (the engine passes `len(bytes)`; every iteration consumes at least two bytes) -/
+theorem asn1_seqof_fuel_unreachable (perm ma : Bool) (et : Nat) (ec : Bool) (f g : Nat) (bs : Bytes)
+    (hf : bs.length ≤ f) (hg : bs.length ≤ g) :
+    C18.countElems perm ma et ec f bs = C18.countElems perm ma et ec g bs :=
+  C01Asn1.countElems_fuel perm ma et ec f g bs hf hg
+
+example : ([0x05, 0x00, 0x01, 0x00] : Bytes).length ≤ 4 ∧ ([0x05, 0x00, 0x01, 0x00] : Bytes).length ≤ 100 := by decide
+
+/-- the same for the sub-identifier loop of `parseObjectIdentifier` -/
+theorem asn1_oid_fuel_unreachable (f g : Nat) (bs : Bytes) (hf : bs.length ≤ f) (hg : bs.length ≤ g) :
+    C18.parseArcs f bs = C18.parseArcs g bs :=
+  C01Asn1.parseArcs_fuel f g bs hf hg
+
+example : ([0x2a, 0x03] : Bytes).length ≤ 2 ∧ ([0x2a, 0x03] : Bytes).length ≤ 7 := by decide
+
+/-- an OBJECT IDENTIFIER has at most `len(bytes)+1` arcs (the Go code allocates exactly `make([]int, len(bytes)+1)`) -/
+theorem asn1_oid_arcs_linear (bs : Bytes) (l : List Int) (h : C18.parseOID bs = .ok (.oid l)) : l.length ≤ bs.length + 1 :=
+  C01Asn1.parseOID_bound bs l h
+
+example : C18.parseOID [0x2a, 0x86, 0x48] = .ok (.oid [1, 2, 840]) := by decide
+
+/-- **allocation is linear in the bytes consumed**: the decoded value (one unit per node, the bytes of every string /
+    BIT STRING / RawValue incl. FullBytes, the arcs of every OID, the limbs of every integer) is bounded by
+    `aC schema + |default| + bC schema · (bytes consumed)`, `aC` / `bC` computed from the Go type alone -/
+theorem asn1_unmarshal_alloc_linear (perm : Bool) (s : C18.Schema) (p : C18.Params) (bs : Bytes) (v : C18.Val) (rest : Bytes)
+    (h : C18.unmarshal perm s p bs = .ok (v, rest)) :
+    C01Asn1.vsize v ≤ C01Asn1.aC s + C01Asn1.dflt p + C01Asn1.bC s * (bs.length - rest.length) :=
+  (C01Asn1.engine_size perm s).1 p bs v rest h
+
+/-! #### instances: certificate-shaped Go types -/
+
+/-- `x509.certificate` (RawContent dropped, Validity kept raw): never panics, never reads past the input, and the
+    decoded certificate is at most `148 + 17·|input|` units -/
+theorem asn1_certificate_safe (perm : Bool) (bs : Bytes) :
+    C18.unmarshal perm C01Asn1.certificate {} bs ≠ .panic ∧
+    ∀ v rest, C18.unmarshal perm C01Asn1.certificate {} bs = .ok (v, rest) →
+      rest <:+ bs ∧ C01Asn1.vsize v ≤ 148 + 17 * bs.length := by
+  refine ⟨asn1_unmarshal_no_panic _ _ _ _, fun v rest h => ⟨asn1_unmarshal_consumed _ _ _ _ _ _ h, ?_⟩⟩
+  have h1 := asn1_unmarshal_alloc_linear _ _ _ _ _ _ h
+  have ea : C01Asn1.aC C01Asn1.certificate = 148 := by decide
+  have eb : C01Asn1.bC C01Asn1.certificate = 17 := by decide
+  have ed : C01Asn1.dflt {} = 0 := rfl
+  rw [ea, eb, ed] at h1
+  have : 17 * (bs.length - rest.length) ≤ 17 * bs.length := Nat.mul_le_mul_left _ (Nat.sub_le _ _)
+  omega
+
+/-- the hypothesis is satisfiable: a 49-byte v3 certificate skeleton followed by two stray bytes is accepted and
+    the stray bytes come back as `rest` -/
+example : (match C18.unmarshal false C01Asn1.certificate {} (C01Asn1.miniCert ++ [0xde, 0xad]) with
+    | .ok (_, rest) => some rest | _ => none) = some [0xde, 0xad] := by decide
+
+/-- `pkix.AlgorithmIdentifier`, `[]pkix.Extension`, `pkix.RDNSequence` (SEQUENCE OF SET OF SEQUENCE) -/
+theorem asn1_pkix_instances_safe (perm : Bool) (bs : Bytes) :
+    C18.unmarshal perm C01Asn1.algId {} bs ≠ .panic ∧
+    C18.unmarshal perm (.seqOf false C01Asn1.extension) {} bs ≠ .panic ∧
+    C18.unmarshal perm C01Asn1.rdnSequence {} bs ≠ .panic ∧
+    C18.unmarshal perm C01Asn1.tbsCertificate {} bs ≠ .panic :=
+  ⟨asn1_unmarshal_no_panic _ _ _ _, asn1_unmarshal_no_panic _ _ _ _, asn1_unmarshal_no_panic _ _ _ _,
+   asn1_unmarshal_no_panic _ _ _ _⟩
+
+/-- sha256WithRSAEncryption with NULL parameters, one trailing byte -/
+example : C18.unmarshal false C01Asn1.algId {}
+      [0x30, 0x0d, 0x06, 0x09, 0x2a, 0x86, 0x48, 0x86, 0xf7, 0x0d, 0x01, 0x01, 0x0b, 0x05, 0x00, 0x77] =
+    .ok (.vcons (.oid [1, 2, 840, 113549, 1, 1, 11]) (.vcons (.raw 0 5 false [] [5, 0]) .vnil), [0x77]) := by decide
+
+/-- a name `CN=hi`: two nested element loops, the allocation bound with the constants of the type -/
+example : ∀ v rest, C18.unmarshal false C01Asn1.rdnSequence {}
+      [0x30, 0x0d, 0x31, 0x0b, 0x30, 0x09, 0x06, 0x03, 0x55, 0x04, 0x03, 0x0c, 0x02, 0x68, 0x69] = .ok (v, rest) →
+    C01Asn1.vsize v ≤ 1 + 15 * 15 := by
+  intro v rest h
+  have h1 := asn1_unmarshal_alloc_linear _ _ _ _ _ _ h
+  have ea : C01Asn1.aC C01Asn1.rdnSequence = 1 := by decide
+  have eb : C01Asn1.bC C01Asn1.rdnSequence = 15 := by decide
+  have ed : C01Asn1.dflt {} = 0 := rfl
+  rw [ea, eb, ed] at h1
+  have : 15 * (15 - rest.length) ≤ 15 * 15 := Nat.mul_le_mul_left _ (Nat.sub_le _ _)
+  simp only [List.length_cons, List.length_nil] at h1
+  omega
+
+/-- an absent OPTIONAL element consumes nothing (left arm of `asn1_unmarshal_progress`) … -/
+example : C18.unmarshal false .bool { optional := true } [0x02, 0x01, 0x05] = .ok (.bool false, [0x02, 0x01, 0x05]) := by
+  decide
+/-- … a present one at least two bytes (right arm) -/
+example : C18.unmarshal false .octets {} [0x04, 0x00, 0x05] = .ok (.bytes [], [0x05]) := by decide
+
+/-- an accepted element, split as `asn1_element_in_bounds` says -/
+example : C18.parsePre false .octets {} [0x04, 0x02, 0xaa, 0xbb, 0xcc] =
+    .go { cls := 0, tag := 4, len := 2, compound := false } 4 [0xaa, 0xbb] [0xcc] := by rfl
 
 end ZV.C01
